@@ -2,10 +2,11 @@
 # build.sh <out-binary> [extra mkoverlay args...]  — builds /repo (current working tree) + harness overlay
 set -euo pipefail
 export GOFLAGS=-mod=mod GOPROXY=off GOSUMDB=off GOTOOLCHAIN=local CGO_ENABLED=1
+ROOT=${VERIF_ROOT:-/verif}
 OUT=$1; shift
-mkdir -p /verif/.build
-OV=$(mktemp /verif/.build/ov.XXXXXX.json)
+mkdir -p "$ROOT/.build"
+OV=$(mktemp "$ROOT/.build/ov.XXXXXX.json")
 trap 'rm -f $OV' EXIT
-python3 /verif/tools/mkoverlay.py "$OV" "$@"
+VERIF_ROOT=$ROOT python3 "$ROOT/tools/mkoverlay.py" "$OV" "$@"
 cd /repo
 go build -tags verif -overlay "$OV" -o "$OUT" ./zzverif/cmd/vmain
